@@ -21,6 +21,7 @@ import (
 //	ack <id> <from> <cookieOf> <rot> <flip>   client <id>'s ClientAck, its cookie replaced by client <cookieOf>'s,
 //	                                  delivered from <from>; rot=1 rotates the cookie key first; flip=<field> flips a
 //	                                  byte of that field (x = none)                              -> out=<n> hs=<n> ss=<n>
+//	xack <addr>                       a well-formed ClientAck with a cookie minted by another server instance -> out=<n> hs=<n> ss=<n>
 //	hreq <addr> <valid|wrongkem|stale|flip:<field>|replay>   hidden-mode request                 -> out=<n> ss=<n>
 //	disc <hello|ack|auth>             a valid discoverable-mode message of a handshake with another server
 //	junk <len> <type>                                                                             -> out=<n> hs=<n> ss=<n>
@@ -101,6 +102,9 @@ func gen(g *GenCtx) {
 				c := Pick(r, clis)
 				g.Op("ack %d %d %d 0 %d", c.id, c.addr, c.id, r.Intn(6))
 			}
+			if r.Chance(1, 8) {
+				g.Op("xack %d", 20+r.Intn(5))
+			}
 			if r.Chance(1, 6) {
 				g.Op("junk %d %d", Pick(r, []int{0, 3, 4, 8, 36, 100, 820, 1172}), Pick(r, []int{1, 3, 5, 8, 16, 0x7f}))
 			}
@@ -111,6 +115,7 @@ func gen(g *GenCtx) {
 type world struct {
 	hidden bool
 	sv     *tnet.Srv
+	sv2    *tnet.Srv // another server instance (its own cookie key): source of foreign cookies
 	sc     hs.Scenario
 	kemPub any
 	clis   map[int]*client
@@ -133,6 +138,9 @@ func (w *world) close() {
 	}
 	for _, c := range w.others {
 		c.Close()
+	}
+	if w.sv2 != nil {
+		w.sv2.Close()
 	}
 	w.sv.Close()
 }
@@ -209,6 +217,31 @@ func (w *world) exec(f []string) string {
 			data[s+l/2] ^= 0x40
 		}
 		if res := w.sv.Deliver(data, addr(num(f[2]))); res != "ok" {
+			return res
+		}
+		return w.tables(len(w.sv.Conn.Drain()))
+	case len(f) == 2 && f[0] == "xack":
+		// a complete, well-formed ClientAck whose cookie was minted by ANOTHER server instance for
+		// this very address and client key
+		if w.sv2 == nil {
+			w.sv2, _, _ = hs.BuildServer(hs.Scenario{Policy: "store", ServerAdv: "ok", ClientAdv: "ok"})
+		}
+		sc := w.sc
+		sc.Hidden = false
+		cl := hs.BuildClient(sc, num(f[1]), nil)
+		w.others = append(w.others, cl)
+		cl.Start()
+		for _, d := range cl.Conn.Drain() {
+			w.sv2.Deliver(d.Data, addr(num(f[1])))
+		}
+		for _, d := range w.sv2.Conn.Drain() {
+			cl.Deliver(d.Data, tnet.ServerAddr)
+		}
+		acks := cl.Conn.Drain()
+		if len(acks) != 1 {
+			return "no-ack"
+		}
+		if res := w.sv.Deliver(acks[0].Data, addr(num(f[1]))); res != "ok" {
 			return res
 		}
 		return w.tables(len(w.sv.Conn.Drain()))
